@@ -3,6 +3,10 @@
 
   tools/source_baseline.py --update     rewrite tools/source_baseline.json from /repo (coordinator, after a /repo commit)
   tools/source_baseline.py <ID>         print "changed <files…>" or "unchanged" for the property (used by ./check)
+  tools/source_baseline.py --hints      print JSON {"nums": [...], "strs": [...]}: the literals (numbers, strings, chars, integer
+                                        type widths) occurring in the lines that differ between the baseline copy of src/
+                                        (tools/source_baseline/src) and the current src/ — passed to the generators as
+                                        VERIF_HINTS so that the search is directed at what the change mentions
 
 ./check never alarms on a fingerprint change: it only ESCALATES the search (more generated cases in the quick
 tier) when the code a property is anchored in differs from the baseline the committed evidence was produced on.
@@ -35,11 +39,72 @@ def fingerprints(pid):
     return {os.path.relpath(f, REPO): hashlib.sha1(norm(open(f, errors="replace").read()).encode()).hexdigest()[:16] for f in files_of(pid)}
 
 
+COPY = os.path.join(V, "tools", "source_baseline", "src")
+
+
+def src_files(root):
+    out = {}
+    for dp, _, fns in os.walk(root):
+        for fn in fns:
+            if fn.endswith(".rs"):
+                full = os.path.join(dp, fn)
+                out[os.path.relpath(full, root)] = full
+    return out
+
+
+def hints():
+    import difflib
+    nums, strs = set(), set()
+    old, new = src_files(COPY), src_files(os.path.join(REPO, "src"))
+    for rel in sorted(set(old) | set(new)):
+        a = open(old[rel], errors="replace").read().split("\n") if rel in old else []
+        b = open(new[rel], errors="replace").read().split("\n") if rel in new else []
+        if a == b:
+            continue
+        for line in difflib.unified_diff(a, b, lineterm="", n=0):
+            if line.startswith(("+++", "---", "@@")) or not line.startswith(("+", "-")):
+                continue
+            body = re.sub(r"//.*", "", line[1:])
+            # literals first (so that digits inside them are not taken as numbers twice)
+            lits = re.findall(r'b?"((?:[^"\\]|\\.)*)"', body) + re.findall(r"b?'((?:[^'\\]|\\.){1,6})'", body)
+            for m in lits:
+                if 0 < len(m) <= 40:
+                    strs.add(m)
+            for m in re.findall(r"\b0x[0-9a-fA-F_]+\b|\b\d[\d_]*\b", body):
+                try:
+                    v = int(m.replace("_", ""), 0)
+                    if v < 2 ** 40:
+                        nums.add(v)
+                except ValueError:
+                    pass
+            for ty, vals in (("u8", (255, 256)), ("i8", (127, 128)), ("u16", (65535, 65536)), ("i16", (32767, 32768))):
+                if re.search(r"\b" + ty + r"\b", body):
+                    nums.update(vals)
+    out_strs = set()
+    for t in strs:
+        try:
+            t2 = re.sub(r"\\x([0-9a-fA-F]{2})", lambda m: chr(int(m.group(1), 16)), t)
+            t2 = re.sub(r"\\u\{([0-9a-fA-F]+)\}", lambda m: chr(int(m.group(1), 16)), t2)
+            for k, v in (("\\n", "\n"), ("\\t", "\t"), ("\\r", "\r"), ("\\0", "\0"), ("\\'", "'"), ('\\"', '"'), ("\\\\", "\\")):
+                t2 = t2.replace(k, v)
+            out_strs.add(t2)
+        except Exception:
+            pass
+    return {"nums": sorted(nums)[:64], "strs": sorted(out_strs)[:64]}
+
+
 if __name__ == "__main__":
     if "--update" in sys.argv:
+        import shutil
         base = {f"C{i:02d}": fingerprints(f"C{i:02d}") for i in range(1, 20)}
         json.dump(base, open(BASE, "w"), indent=1, sort_keys=True)
+        shutil.rmtree(os.path.dirname(COPY), ignore_errors=True)
+        for rel, full in src_files(os.path.join(REPO, "src")).items():
+            os.makedirs(os.path.dirname(os.path.join(COPY, rel)), exist_ok=True)
+            shutil.copyfile(full, os.path.join(COPY, rel))
         print("baseline updated")
+    elif "--hints" in sys.argv:
+        print(json.dumps(hints()))
     else:
         pid = sys.argv[1]
         base = json.load(open(BASE)).get(pid, {}) if os.path.exists(BASE) else {}
